@@ -2,7 +2,7 @@
     regenerated buffer size on the byte streams, segmentations and read sizes
     the harness fed to the real TLSHelloConn, and compare. *)
 From Coq Require Import List NArith ZArith Bool String Uint63.
-From Verif Require Import Lib.Bytes Sni.Wire Sni.Hello Gen.HelloConsts.
+From Verif Require Import Lib.Bytes Sni.Wire Sni.Hello Sni.Handover Gen.HelloConsts.
 Import ListNotations.
 Local Open Scope N_scope.
 
@@ -71,8 +71,13 @@ Definition check_sniff (input : bytes) (sched reads : list N) (late : bool)
       | _ => true
       end &&
       (b_pulled b1 =? pulled) &&
-      let '(cs, e, _) := breads gen_hello_buf_size reads b1 in
-      list_eqb N.eqb (map lenN cs) chunks && (end_of e =? ended)
+      (* the Reads: TLSHelloConn.Read under the hand-over policy emitted from the
+         source, and - the same thing when the policy is the deployed one - the
+         plain bufio Reads the older theorems are about *)
+      match hc_reads gen_read_handover gen_hello_buf_size reads (hc_start 0 b1) with
+      | Some (cs, e, _) => list_eqb N.eqb (map lenN cs) chunks && (end_of e =? ended)
+      | None => false
+      end
   | _ => false
   end.
 
